@@ -551,6 +551,49 @@ func checkC06(p *Prog, l *Ledger) {
 	models := cs.all()
 	natives := exploreNatives(p, l)
 	models = append(models, natives...)
+	// ---- S0 a failing read is a fault: a built-in that performs I/O hands every error of it on
+	nIO := 0
+	for _, m := range natives {
+		ios := m.G.Events("io")
+		if len(ios) == 0 {
+			continue
+		}
+		nIO += len(ios)
+		mon := Monitor{Init: "idle", Step: func(s string, ev *Event) string {
+			switch ev.Op {
+			case "io":
+				if ev.KV["haserr"] != "T" {
+					return s
+				}
+				return "pending|"
+			case "niltest":
+				if strings.HasPrefix(s, "pending|") && len(ev.Args) > 0 && strings.HasPrefix(ev.Args[0], "io@") && strings.HasSuffix(ev.Args[0], "#1") {
+					if ev.Out == "nonnil" {
+						return "failed"
+					}
+					return "idle"
+				}
+			case "return":
+				if s == "failed" && ev.KV["r1"] == "nil" {
+					return "!the built-in returns a value (" + ev.KV["r0"] + ") although its read failed: end of input or a read error is not reported, the program goes on with made-up data"
+				}
+				if strings.HasPrefix(s, "pending|") && ev.KV["r1"] == "nil" {
+					return "!the built-in returns without looking at the error of its read"
+				}
+			}
+			return s
+		}}
+		ws := m.G.Run(mon)
+		for _, w := range ws {
+			l.Violate("C06/S0-fault-detected/builtin-io", m.Scenario, posOf(w), w.Msg, witnessDetail(w))
+		}
+		if len(ws) == 0 {
+			l.Discharge("C06/S0-fault-detected/builtin-io", m.Scenario, ios[0].Pos, "every failed read ends the call with an error (which eval/Call reports)", true)
+		}
+	}
+	if nIO == 0 {
+		l.Violate("C06/S0-fault-detected/vacuity", "builtin-io", "", "no built-in performing input found (ইনপুট reads a line)")
+	}
 	for _, m := range models {
 		// S2: effects while dirty
 		seen := map[string]bool{}
